@@ -1,72 +1,9 @@
 /-
-C09 — helper lemmas about error_handler() (`errorHandler`, `callMasterHandler`, `caughtError`) and `setHeartBeat`.
+C09 — helper lemmas about the heart-beat shut-off step of error_handler() (`hbOff`, `setHeartBeat`).
 -/
-import NV.C09.Model
+import NV.C09.ErrLemmas
 
 namespace NV.C09
-
-/-- the fields error_handler() may touch besides the flags: only the heart-beat table, through set_heart_beat(ob, 0) -/
-structure SameButHb (w w' : W) : Prop where
-  users : w'.users = w.users
-  inter : w'.inter = w.inter
-  dead : w'.dead = w.dead
-  callouts : w'.callouts = w.callouts
-  objList : w'.objList = w.objList
-  now : w'.now = w.now
-  hbFlag : w'.hbFlag = w.hbFlag
-  ctxDepth : w'.ctxDepth = w.ctxDepth
-  nextUser : w'.nextUser = w.nextUser
-  shutdown : w'.shutdown = w.shutdown
-  crashed : w'.crashed = w.crashed
-  mode : w'.mode = w.mode
-
-theorem SameButHb.refl (w : W) : SameButHb w w := by constructor <;> rfl
-
-theorem SameButHb.trans {a b c : W} (h1 : SameButHb a b) (h2 : SameButHb b c) : SameButHb a c := by
-  constructor
-  · rw [h2.users, h1.users]
-  · rw [h2.inter, h1.inter]
-  · rw [h2.dead, h1.dead]
-  · rw [h2.callouts, h1.callouts]
-  · rw [h2.objList, h1.objList]
-  · rw [h2.now, h1.now]
-  · rw [h2.hbFlag, h1.hbFlag]
-  · rw [h2.ctxDepth, h1.ctxDepth]
-  · rw [h2.nextUser, h1.nextUser]
-  · rw [h2.shutdown, h1.shutdown]
-  · rw [h2.crashed, h1.crashed]
-  · rw [h2.mode, h1.mode]
-
-theorem setHeartBeat_same (w : W) (o : Oid) (n : Nat) : SameButHb w (setHeartBeat w o n) := by
-  unfold setHeartBeat
-  split
-  · exact SameButHb.refl w
-  · split
-    · split
-      · exact SameButHb.refl w
-      · constructor <;> rfl
-    · split
-      · exact SameButHb.refl w
-      · constructor <;> rfl
-
-theorem hbOff_same (w : W) : SameButHb w (hbOff w) := by
-  unfold hbOff
-  split
-  · have h := setHeartBeat_same w ‹Oid› 0
-    constructor
-    · exact h.users
-    · exact h.inter
-    · exact h.dead
-    · exact h.callouts
-    · exact h.objList
-    · exact h.now
-    · exact h.hbFlag
-    · exact h.ctxDepth
-    · exact h.nextUser
-    · exact h.shutdown
-    · exact h.crashed
-    · exact h.mode
-  · exact SameButHb.refl w
 
 theorem setHeartBeat_zero_hbs (w : W) (o : Oid) (hd : w.dead o = false) :
     (setHeartBeat w o 0).hbs = w.hbs.erase o := by
@@ -80,10 +17,6 @@ theorem setHeartBeat_zero_hbs (w : W) (o : Oid) (hd : w.dead o = false) :
       exact this hm
     simp [List.erase_of_not_mem this]
   · rfl
-
-end NV.C09
-
-namespace NV.C09
 
 /-- the heart-beat table after the shut-off step, as a function of the table, current_heart_beat and O_DESTRUCTED -/
 def hbsAfterOff (w : W) : List Oid :=
@@ -106,67 +39,5 @@ theorem hbOff_curHb (w : W) : (hbOff w).curHb = none := by
   cases h : w.curHb with
   | none => simpa using h
   | some o => rfl
-
-theorem setHeartBeat_flags (w : W) (o : Oid) (n : Nat) :
-    (setHeartBeat w o n).inError = w.inError ∧ (setHeartBeat w o n).inMeh = w.inMeh := by
-  unfold setHeartBeat
-  split
-  · exact ⟨rfl, rfl⟩
-  · split
-    · split
-      · exact ⟨rfl, rfl⟩
-      · exact ⟨rfl, rfl⟩
-    · split
-      · exact ⟨rfl, rfl⟩
-      · exact ⟨rfl, rfl⟩
-
-theorem hbOff_flags (w : W) : (hbOff w).inError = w.inError ∧ (hbOff w).inMeh = w.inMeh := by
-  unfold hbOff
-  cases h : w.curHb with
-  | none => exact ⟨rfl, rfl⟩
-  | some o => exact setHeartBeat_flags w o 0
-
-@[simp] theorem hbOff_inError (w : W) : (hbOff w).inError = w.inError := (hbOff_flags w).1
-@[simp] theorem hbOff_inMeh (w : W) : (hbOff w).inMeh = w.inMeh := (hbOff_flags w).2
-@[simp] theorem hbOff_users (w : W) : (hbOff w).users = w.users := (hbOff_same w).users
-@[simp] theorem hbOff_callouts (w : W) : (hbOff w).callouts = w.callouts := (hbOff_same w).callouts
-@[simp] theorem hbOff_dead (w : W) : (hbOff w).dead = w.dead := (hbOff_same w).dead
-@[simp] theorem hbOff_crashed (w : W) : (hbOff w).crashed = w.crashed := (hbOff_same w).crashed
-@[simp] theorem hbOff_ctxDepth (w : W) : (hbOff w).ctxDepth = w.ctxDepth := (hbOff_same w).ctxDepth
-@[simp] theorem hbOff_inter (w : W) : (hbOff w).inter = w.inter := (hbOff_same w).inter
-attribute [simp] hbOff_hbs hbOff_curHb
-
-/-- the observable core of a state as far as error_handler() is concerned -/
-structure Core where
-  inError : Bool
-  inMeh : Bool
-  curHb : Option Oid
-  hbs : List Oid
-  users : Option (List (Option Conn))
-  callouts : List CallOut
-  ctxDepth : Nat
-  crashedIsNone : Bool
-
-def core (w : W) : Core :=
-  { inError := w.inError, inMeh := w.inMeh, curHb := w.curHb, hbs := w.hbs, users := w.users,
-    callouts := w.callouts, ctxDepth := w.ctxDepth, crashedIsNone := w.crashed.isNone }
-
-/-- callMasterHandler entered with in_error = 0 (handler behaviours `ok` and `raise`): if it returns normally nothing
-    but the report happened; if it left through a nested error, the flags are clear and the shut-off step was done -/
-theorem callMasterHandler_core (fuel : Nat) (w : W) (msg : String) (h : w.inError = false)
-    (hm : w.meh ≠ .recurse) :
-    ((callMasterHandler fuel w msg).2 = false → core (callMasterHandler fuel w msg).1 = core w ∧
-        (callMasterHandler fuel w msg).1.dead = w.dead) ∧
-    ((callMasterHandler fuel w msg).2 = true →
-      core (callMasterHandler fuel w msg).1 =
-        { core w with inError := false, inMeh := false, curHb := none, hbs := hbsAfterOff w }) := by
-  cases fuel with
-  | zero => simp [callMasterHandler, emit, core]
-  | succ n =>
-    unfold callMasterHandler
-    cases hm' : w.meh with
-    | ok => simp [emit, hm', core]
-    | raise => simp [emit, hm', core, hbsAfterOff]
-    | recurse => exact absurd hm' hm
 
 end NV.C09
